@@ -229,7 +229,7 @@ theorem classification_by_fault_partial (flt : Fault) (h : flt ≠ .nested) :
 /-- which external-event operations are errors *inside* a handler according to the property text -/
 def documentedFatal : Op → Bool
   | .handlerErr _ f => (Fault.inHandler f).documentedFatal
-  | .ctrlAbort _ | .ctrlShutdown | .nestedUnknown _ => true
+  | .ctrlAbort _ | .ctrlAbortText | .ctrlShutdown | .nestedUnknown _ => true
   | _ => false
 
 /- Full statement (NOT provable, the code violates it for `nestedUnknown`):
@@ -239,12 +239,13 @@ def documentedFatal : Op → Bool
    without abort(); see known_findings.json.  Proved: the statement for every other external event. -/
 theorem classification_partial (s : St) (h : s.ready = true) (op : Op)
     (hext : op = .paramErr ∨ op = .unknownEvt ∨ (∃ i f, op = .handlerErr i f) ∨ (∃ i, op = .ctrlAbort i) ∨
-            op = .ctrlShutdown) :
+            op = .ctrlShutdown ∨ op = .ctrlAbortText) :
     ((step s op).2.dels ≠ [] ↔ documentedFatal op = true) := by
-  rcases hext with rfl | rfl | ⟨i, f, rfl⟩ | ⟨i, rfl⟩ | rfl
+  rcases hext with rfl | rfl | ⟨i, f, rfl⟩ | ⟨i, rfl⟩ | rfl | rfl
   · simp [step, h, documentedFatal]
   · simp [step, h, documentedFatal]
   · cases f <;> simp [step, h, documentedFatal, Fault.documentedFatal, Fault.fatal, fatalSeen, Fault.seen]
+  · simp [step, h, documentedFatal]
   · simp [step, h, documentedFatal]
   · simp [step, h, documentedFatal]
 
@@ -300,6 +301,7 @@ theorem monitored_task_error_is_fatal (s : St) (he : s.error = none) (id : Nat) 
 /-- the ControlBlock events -/
 theorem control_events (s : St) (h : s.ready = true) (id : Nat) :
     (step s (.ctrlAbort id)).1.error = some (.reported id) ∧
+    (step s .ctrlAbortText).1.error = some .reportedText ∧
     (step s .ctrlShutdown).1.error = some (.cancelled 2) := by
   simp [St.ready] at h
   obtain ⟨hp, he⟩ := h
@@ -506,6 +508,16 @@ theorem translated_errreg_wait_init_returns_iff_ready (env : Nat → St → St) 
         cases h' : (env s.log.length s.st).error <;> simp_all
       simp [hd, he, hn, this]
 
+/-- `_TerminatingSignal.__init__`: the signal number is stored in any case; without one nothing else happens, with
+    one the message of the later CancelledError is built (`signal.strsignal` may raise for an invalid number) -/
+theorem translated_errreg_sig_init_is_model (sc : Bool) (o : Option Unit) (s : TS) :
+    TrE.sigInit (sgPrims sc) o s =
+      match o with
+      | some _ => ({ s with signo := true, msg := sigMsg }, .next ())
+      | none => ({ s with signo := false }, .ret false) := by
+  unfold TrE.sigInit
+  cases o <;> simp [bind_apply, pure_apply, ret_apply, sigMsg]
+
 /-- `_TerminatingSignal.__enter__`: without a signal number nothing; else the old handler is saved FIRST (the value
     saved is the one from before the installation), then the new one installed -/
 theorem translated_errreg_sig_enter_is_model (sc : Bool) (s : TS) :
@@ -569,7 +581,7 @@ theorem translated_errreg_run_collect_supporting (env : Nat → St → St) (n : 
     cases hf : supFailure s.st.supDone k with
     | some id =>
       cases re <;>
-        simp [hf, bind_apply, pure_apply, raise_apply, tryExcept_apply, hlen, h1, h2, ih (k + 1) _ s (by omega),
+        simp [hf, bind_apply, pure_apply, raise_apply, tryExcept_apply, hlen, h1, h2, addNote_quiet, ih (k + 1) _ s (by omega),
           orElseSup, List.findSome?_cons, Err.isCancel]
     | none =>
       cases hd : s.st.supDone.any (·.1 == k) <;> cases re <;>
@@ -623,7 +635,7 @@ theorem translated_errreg_run_is_model (env : Nat → St → St) (cx : Nat → B
       ({ st := (runModel env s0).1
          dels := (runModel env s0).2
          log := [(.yield, c), (.wait, c), (.yield, c), (.simtask, false)]
-         signo := c, saved := (if c then some false else none), handler := false, waited := true
+         signo := c, msg := (if c then sigMsg else ""), saved := (if c then some false else none), handler := false, waited := true
          cancelled := ((List.range n).filter fun i => !((env 1 (env 0 s0)).supDone.any (·.1 == i))).map Tk.sup
          cancelAt := cx },
        outcomeOf (runRaises (runModel env s0).1 n)) := by
@@ -635,7 +647,7 @@ theorem translated_errreg_run_is_model (env : Nat → St → St) (cx : Nat → B
     exact congrArg _ (enumFrom_sups n 0)
   unfold TrE.run
   by_cases hd : (env 2 ((env 1 (env 0 s0)).addWake .runAbort)).phase = .done <;> cases c <;> cases hx1 : cx 1 <;>
-  simp [withCtx_apply, bind_apply, tryFinally_apply, callFn, translated_errreg_sig_enter_is_model,
+  simp [withCtx_apply, bind_apply, tryFinally_apply, callFn, translated_errreg_sig_init_is_model, addNote_quiet, translated_errreg_sig_enter_is_model,
     translated_errreg_sig_exit_returns_false, translated_errreg_sig_exit_without_signal, hne, hlen, pure_apply, get_apply,
     tryExcept_apply, taskDone, h1, hd, TS.await, awaitM, callerCancelled, hx0, hx1, hx2, hx3,
     translated_errreg_run_stop_loop_cancels_unfinished, henum, abortP, runModel, wakeStep,
@@ -650,7 +662,7 @@ theorem translated_errreg_run_cancelled_at_second_yield (env : Nat → St → St
     TrE.run (runPrims env) (coros n) c { st := s0, cancelAt := cx } =
       ({ st := env 2 (wakeStep (env 1 (env 0 s0)) .runWaiter).1
          log := [(.yield, c), (.wait, c), (.yield, c)]
-         signo := c, saved := (if c then some false else none), handler := false, waited := true
+         signo := c, msg := (if c then sigMsg else ""), saved := (if c then some false else none), handler := false, waited := true
          cancelled := ((List.range n).filter fun i => !((env 1 (env 0 s0)).supDone.any (·.1 == i))).map Tk.sup
          cancelAt := cx },
        .raise callerCancelled) := by
@@ -658,7 +670,7 @@ theorem translated_errreg_run_cancelled_at_second_yield (env : Nat → St → St
   have hne : (coros n).isEmpty = false := by cases n with | zero => omega | succ n => simp [coros, List.replicate_succ]
   unfold TrE.run
   cases c <;> cases hx1 : cx 1 <;>
-  simp [withCtx_apply, bind_apply, tryFinally_apply, callFn, translated_errreg_sig_enter_is_model,
+  simp [withCtx_apply, bind_apply, tryFinally_apply, callFn, translated_errreg_sig_init_is_model, addNote_quiet, translated_errreg_sig_enter_is_model,
     translated_errreg_sig_exit_returns_false, translated_errreg_sig_exit_without_signal, hne, hlen, pure_apply, get_apply,
     tryExcept_apply, taskDone, h1, TS.await, awaitM, callerCancelled, hx0, hx1, hx2,
     translated_errreg_run_stop_loop_cancels_unfinished, wakeStep]
@@ -674,7 +686,7 @@ theorem translated_errreg_run_skips_simtask (env : Nat → St → St) (n : Nat) 
     normal end (`return`), a real error propagates: the model's `runRaises … 0` -/
 theorem translated_errreg_run_without_coroutines (env : Nat → St → St) (c : Bool) (s0 : St) :
     TrE.run (runPrims env) [] c { st := s0 } =
-      ({ st := env 0 s0, log := [(.runForever, c)], signo := c, saved := (if c then some false else none), handler := false },
+      ({ st := env 0 s0, log := [(.runForever, c)], signo := c, msg := (if c then sigMsg else ""), saved := (if c then some false else none), handler := false },
        match runRaises (env 0 s0) 0 with
        | some e => .raise (.err e)
        | none => .ret ()) := by
@@ -682,11 +694,11 @@ theorem translated_errreg_run_without_coroutines (env : Nat → St → St) (c : 
   cases he : (env 0 s0).error with
   | none =>
     cases c <;>
-    simp [withCtx_apply, bind_apply, tryFinally_apply, callFn, translated_errreg_sig_enter_is_model, translated_errreg_sig_exit_returns_false, translated_errreg_sig_exit_without_signal, pure_apply, get_apply,
+    simp [withCtx_apply, bind_apply, tryFinally_apply, callFn, translated_errreg_sig_init_is_model, addNote_quiet, translated_errreg_sig_enter_is_model, translated_errreg_sig_exit_returns_false, translated_errreg_sig_exit_without_signal, pure_apply, get_apply,
       tryExcept_apply, TS.await, awaitSim, awaitM, runForeverRaises, he, ret_apply, runRaises, shutdownRaises, firstSupError]
   | some e =>
     cases hk : e.isCancel <;> cases c <;>
-    simp [withCtx_apply, bind_apply, tryFinally_apply, callFn, translated_errreg_sig_enter_is_model, translated_errreg_sig_exit_returns_false, translated_errreg_sig_exit_without_signal, pure_apply, get_apply,
+    simp [withCtx_apply, bind_apply, tryFinally_apply, callFn, translated_errreg_sig_init_is_model, addNote_quiet, translated_errreg_sig_enter_is_model, translated_errreg_sig_exit_returns_false, translated_errreg_sig_exit_without_signal, pure_apply, get_apply,
       tryExcept_apply, TS.await, awaitSim, awaitM, runForeverRaises, he, hk, ret_apply, raise_apply, runRaises, shutdownRaises, firstSupError]
 
 /-- the simulation task is already finished after the first yield: its error is re-raised (a cancellation:
@@ -694,7 +706,7 @@ theorem translated_errreg_run_without_coroutines (env : Nat → St → St) (c : 
 theorem translated_errreg_run_simtask_dead_early (env : Nat → St → St) (n : Nat) (c : Bool) (s0 : St)
     (hn : 0 < n) (h1 : (env 0 s0).phase = .done) :
     TrE.run (runPrims env) (coros n) c { st := s0 } =
-      ({ st := env 0 s0, log := [(.yield, c)], signo := c, saved := (if c then some false else none), handler := false },
+      ({ st := env 0 s0, log := [(.yield, c)], signo := c, msg := (if c then sigMsg else ""), saved := (if c then some false else none), handler := false },
        match shutdownRaises (env 0 s0) with
        | some e => .raise (.err e)
        | none => .raise .runtimeError) := by
@@ -703,11 +715,11 @@ theorem translated_errreg_run_simtask_dead_early (env : Nat → St → St) (n : 
   cases he : (env 0 s0).error with
   | none =>
     cases c <;>
-    simp [withCtx_apply, bind_apply, tryFinally_apply, callFn, translated_errreg_sig_enter_is_model, translated_errreg_sig_exit_returns_false, translated_errreg_sig_exit_without_signal, pure_apply, get_apply, hne,
+    simp [withCtx_apply, bind_apply, tryFinally_apply, callFn, translated_errreg_sig_init_is_model, addNote_quiet, translated_errreg_sig_enter_is_model, translated_errreg_sig_exit_returns_false, translated_errreg_sig_exit_without_signal, pure_apply, get_apply, hne,
       tryExcept_apply, TS.await, awaitM, taskDone, h1, runForeverRaises, he, raise_apply, shutdownRaises]
   | some e =>
     cases hk : e.isCancel <;> cases c <;>
-    simp [withCtx_apply, bind_apply, tryFinally_apply, callFn, translated_errreg_sig_enter_is_model, translated_errreg_sig_exit_returns_false, translated_errreg_sig_exit_without_signal, pure_apply, get_apply, hne,
+    simp [withCtx_apply, bind_apply, tryFinally_apply, callFn, translated_errreg_sig_init_is_model, addNote_quiet, translated_errreg_sig_enter_is_model, translated_errreg_sig_exit_returns_false, translated_errreg_sig_exit_without_signal, pure_apply, get_apply, hne,
       tryExcept_apply, TS.await, awaitM, taskDone, h1, runForeverRaises, he, hk, raise_apply, shutdownRaises]
 
 /-- abort() before the start: the translated `run_forever` still registers the task (`_simtask`), raises the
@@ -1006,6 +1018,72 @@ theorem translated_errreg_early_init_failure_reaches_caller_only (flt : Fault) (
   · intro i
     simp only [step]
     split <;> simp
+
+/-! #### the ControlBlock events and `add_note` -/
+
+/-- the model operation of an 'abort' control event with the given `error` item -/
+def ctlAbortOp : CtlErr → Op
+  | .exception id => .ctrlAbort id
+  | _ => .ctrlAbortText
+
+/-- the error the 'abort' control event hands to abort(): an EdzedCircuitError whose `__cause__` is the reported
+    error exactly when that is an Exception -/
+def ctlAbortErr : CtlErr → Err
+  | .exception id => .reported id
+  | _ => .reportedText
+
+/-- `ControlBlock._event_abort` IS the model's `ctrlAbort` / `ctrlAbortText`: exactly ONE abort(EdzedCircuitError …)
+    is delivered -- with the reported error as its cause iff that is an Exception (not a string, not the default, not
+    a bare BaseException) --, nothing is awaited, the handler returns normally; for a ready circuit state and
+    deliveries are those of the model's operation -/
+theorem translated_errreg_ctl_abort_is_model (e : CtlErr) (s : TS) :
+    TrE.ctlAbort ctPrims () e s =
+      ({ s with st := s.st.abort (ctlAbortErr e), dels := s.dels ++ [ctlAbortErr e] }, .next ()) ∧
+    (s.st.ready = true →
+      (TrE.ctlAbort ctPrims () e s).1.st = (step s.st (ctlAbortOp e)).1 ∧
+      (TrE.ctlAbort ctPrims () e s).1.dels = s.dels ++ (step s.st (ctlAbortOp e)).2.dels) := by
+  have h : TrE.ctlAbort ctPrims () e s =
+      ({ s with st := s.st.abort (ctlAbortErr e), dels := s.dels ++ [ctlAbortErr e] }, .next ()) := by
+    unfold TrE.ctlAbort
+    cases e <;> simp [bind_apply, pure_apply, abortP, ctlAbortErr]
+  refine ⟨h, fun hr => ?_⟩
+  rw [h]
+  cases e <;> simp [ctlAbortOp, ctlAbortErr, step, hr]
+
+/-- `ControlBlock._event_shutdown` IS the model's `ctrlShutdown`: `abort(CancelledError(<shutdown requested by …>))`
+    -- what `shutdown()` delivers, with another message -- and NOTHING is awaited (the log of awaits is unchanged) -/
+theorem translated_errreg_ctl_shutdown_is_model (s : TS) :
+    TrE.ctlShutdown (α := CtlErr) ctPrims () s =
+      ({ s with st := s.st.abort (.cancelled 2), dels := s.dels ++ [.cancelled 2] }, .next ()) ∧
+    (TrE.ctlShutdown (α := CtlErr) ctPrims () s).1.log = s.log ∧
+    (s.st.ready = true →
+      (TrE.ctlShutdown (α := CtlErr) ctPrims () s).1.st = (step s.st .ctrlShutdown).1 ∧
+      (TrE.ctlShutdown (α := CtlErr) ctPrims () s).1.dels = s.dels ++ (step s.st .ctrlShutdown).2.dels) := by
+  have h : TrE.ctlShutdown (α := CtlErr) ctPrims () s =
+      ({ s with st := s.st.abort (.cancelled 2), dels := s.dels ++ [.cancelled 2] }, .next ()) := by
+    unfold TrE.ctlShutdown
+    simp [bind_apply, pure_apply, abortP]
+  refine ⟨h, by rw [h], fun hr => ?_⟩
+  rw [h]
+  simp [step, hr]
+
+/-- `add_note(exc, note)` cannot change what is reported: it returns normally, touches nothing but the note of the
+    exception (attached natively on Python ≥ 3.11, else prepended to a str first argument, else dropped), and the
+    model state is unchanged -- it is called inside except clauses BEFORE abort() / the re-raise -/
+theorem translated_errreg_add_note_is_harmless (hasNotes firstStr : Bool) (e : PyExc) (s : TS) :
+    TrE.addNote (ntPrims hasNotes firstStr false) e () s =
+      ({ s with noted := if hasNotes || firstStr then s.noted + 1 else s.noted }, .next ()) := by
+  unfold TrE.addNote
+  cases hasNotes <;> cases firstStr <;> simp [bind_apply, get_apply, pure_apply]
+
+/-- … what it MAY do (declared): when the native `exc.add_note` raises (a note that is not a str) that TypeError
+    leaves add_note -- and would replace the original error in the caller's except clause; the fallback branch for
+    older Pythons cannot raise -/
+theorem translated_errreg_add_note_failure_propagates (firstStr : Bool) (e : PyExc) (s : TS) :
+    TrE.addNote (ntPrims true firstStr true) e () s = (s, .raise .typeError) ∧
+    (TrE.addNote (ntPrims false firstStr true) e () s).2 = .next () := by
+  unfold TrE.addNote
+  cases firstStr <;> simp [bind_apply, get_apply, pure_apply]
 
 end ErrRegTie
 
